@@ -165,7 +165,7 @@ def make_data(rng: random.Random, hostile: float = 0.1, drop: float = 0.1) -> di
             for _ in range(rng.randint(0, 4))
         ],
         "h": {"a": rng.choice(V.FRIENDLY_INT), "b": rng.choice(V.FRIENDLY_STR), "k": [1, 2, 3][: rng.randint(0, 3)]},
-        "d": {"a": {"b": [1, 2, {"c": "deep"}]}, "list": ["p", "q", "r"], "x y": 1, "size": 99, "s": "key", "2024": "Y", "7-1": "Z", "a-b": "AB", "": "E", "a.b": "DOT", "x\\y": "BSL", "t\tb": "TAB", "q'q": "QQ", "..": "DOTS",
+        "d": {"a": {"b": [1, 2, {"c": "deep"}]}, "list": ["p", "q", "r"], "x y": 1, "size": 99, "s": "key", "2024": "Y", "7-1": "Z", "a-b": "AB", "": "E", "a.b": "DOT", "x\\y": "BSL", "\u20ac": "EUR", "a\u2192b": "ARROW", "\u00d7": "TIMES", "\u65e5\u672c": "NIHON", "t\tb": "TAB", "q'q": "QQ", "..": "DOTS",
               "first": "F1", "1st": "ST", "é": "U", "if": "KIF", "and": "KAND", "true": "KTRUE", "empty": "KEMPTY", "in": ["KIN"], "with": "KWITH", "contains": "KCONT",
               "nil": "KNIL", "not": {"x": "KNOT"}, "for": "KFOR", "as": "KAS", "blank": "KBLANK", "or": "KOR", "else": "KELSE"},
     }
@@ -333,7 +333,7 @@ class Gen:
                  ".a.b.size", ".list[-1]", ".list[n]", "[s]", "[t]", ".a['b'][1]", '["list"][0]', ".nope", ".a.nope.x", ".list[9]",
                  "['2024']", '["7-1"]', "['a-b']", ".a-b", "['']", "['a.b']", ".first", "['first']", "['1st']", "['é']", ".é", "['size']", "['0']", "[' ']",
                  # keys spelled like keywords of the expression language: only reachable in bracket notation
-                 "['x\\y']", "['t\tb']", '["q\'q"]', "['..']", "['if']", "['and']", "['true']", "['empty']", "['in']", "['with']", "['contains']", "['nil']", "['not'].x", "['for']", "['as']", "['blank']", "['or']", "['else']"]
+                 "['\u20ac']", "['a\u2192b']", "['\u00d7']", "['\u65e5\u672c']", "['x\\y']", "['t\tb']", '["q\'q"]', "['..']", "['if']", "['and']", "['true']", "['empty']", "['in']", "['with']", "['contains']", "['nil']", "['not'].x", "['for']", "['as']", "['blank']", "['or']", "['else']"]
             )
             self.meta.roots.update({"n", "s", "t"} & set(segs.replace("[", " ").replace("]", " ").split()))
             return "d" + segs if root == "d" else root + self.ch([".a", ".b", ".k", "[0]", ".size", ".first", ".last", "[-1]", ".title", "['a']", ".k[0]"])
